@@ -173,8 +173,29 @@ def build_scratch(dest, harness_files=(), consts=None, tv=False):
     lib = lib.replace(anchor, inject + anchor, 1)
     open(libp, "w").write(lib)
 
+    # encoding switches (cfg names of the container model / harnesses), forced on by text substitution
+    # because cargo-kani owns RUSTFLAGS: consts {"CFG_<name>": 1}
+    for name in [n for n in consts if n.startswith("CFG_")]:
+        cfgname = name[4:]
+        hits = 0
+        for root, _, files in os.walk(srcroot):
+            for f in files:
+                if f.endswith(".rs"):
+                    pth = os.path.join(root, f)
+                    t = open(pth).read()
+                    t2 = re.sub(r"cfg\(not\(%s\)\)" % cfgname, "cfg(any())", t)
+                    t2 = re.sub(r"cfg\(all\(kani, %s\)\)" % cfgname, "cfg(kani)", t2)
+                    t2 = re.sub(r"cfg\(%s\)" % cfgname, "cfg(all())", t2)
+                    if t2 != t:
+                        hits += 1
+                        open(pth, "w").write(t2)
+        if not hits:
+            raise EncodingError("switch %s not found in the encoding" % cfgname)
+        info["consts"][name] = {"original": 0, "encoded": 1}
     # R3 constants
     for name, val in consts.items():
+        if name.startswith("CFG_"):
+            continue
         if name not in CONST_ANCHORS:
             raise EncodingError("R3: unknown constant %s" % name)
         rel, rx = CONST_ANCHORS[name]
